@@ -77,7 +77,7 @@ Lemma dtimers_body_spec : forall cx g s,
                    s_remote_last_ack s1 = s_remote_last_ack s /\
                    s_remote_last_win s1 = s_remote_last_win s.
 Proof.
-  intros cx g s Hinv. pose proof Hinv as (Htx & Htm). unfold dtimers_body.
+  intros cx g s Hinv. pose proof Hinv as (Htx & Htm & Hk). unfold dtimers_body.
   destruct (tcp_timed_out s (cx_now cx)).
   - eexists _, _, g. split; [reflexivity|]. split; [apply abort_inv; exact Hinv|].
     split; [auto|]. split; [|repeat split; reflexivity]. unfold frame, tcp_set_state. fld. repeat split; auto.
@@ -105,21 +105,26 @@ Proof.
         unfold phase_ok in *. cbn [g_phase g_acked g_fin g_flight]. destruct (g_phase g); tauto. }
       destruct ((s_remote_win_len s =? 0) && negb (rb_is_empty (s_tx_buffer s))) eqn:Ez.
         -- eexists _, _, (g_rewind g). split; [reflexivity|]. split; [|split; [auto|]].
-           ++ split; [unfold tx_inv; fld; exact Hrw|].
-              unfold tm_inv, tm_inv_f. fld. unfold timer_set_for_zero_window_probe. cbn.
-              apply andb_prop in Ez. destruct Ez as (Ez & _). apply Z.eqb_eq in Ez.
-              split; [intros _; exact Ez|discriminate].
+           ++ split; [unfold tx_inv; fld; exact Hrw|]. split.
+              { unfold tm_inv, tm_inv_f. fld. unfold timer_set_for_zero_window_probe. cbn.
+                apply andb_prop in Ez. destruct Ez as (Ez & _). apply Z.eqb_eq in Ez.
+                split; [intros _; exact Ez|discriminate]. }
+              eapply (kinv_fields2 g s); try exact Hk; try reflexivity; fld; auto.
+              unfold rtte_on_retransmit. cbn [rt_max_seq_sent]. apply rtte_on_rto_msx.
            ++ split; [unfold frame; fld; repeat split; auto|repeat split; reflexivity].
         -- eexists _, _, (g_rewind g). split; [reflexivity|]. split; [|split; [auto|]].
-           ++ split; [unfold tx_inv; fld; exact Hrw|].
-              unfold tm_inv, tm_inv_f. fld. unfold timer_set_for_idle, g_rewind. cbn.
-              split; [discriminate|auto].
+           ++ split; [unfold tx_inv; fld; exact Hrw|]. split.
+              { unfold tm_inv, tm_inv_f. fld. unfold timer_set_for_idle, g_rewind. cbn.
+                split; [discriminate|auto]. }
+              eapply (kinv_fields2 g s); try exact Hk; try reflexivity; fld; auto.
+              unfold rtte_on_retransmit. cbn [rt_max_seq_sent]. apply rtte_on_rto_msx.
            ++ split; [unfold frame; fld; repeat split; auto|repeat split; reflexivity].
     + (* fast retransmit *)
       fld. eexists _, _, g. split; [reflexivity|]. split; [|split; [auto|]].
-      * split; [unfold tx_inv; fld; exact Htx|].
-        unfold tm_inv, tm_inv_f. fld. unfold timer_set_for_retransmit, timer_set_for_idle. cbn.
-        split; discriminate.
+      * split; [unfold tx_inv; fld; exact Htx|]. split.
+        { unfold tm_inv, tm_inv_f. fld. unfold timer_set_for_retransmit, timer_set_for_idle. cbn.
+          split; discriminate. }
+        eapply (kinv_fields2 g s); try exact Hk; try reflexivity; fld; auto.
       * split; [unfold frame; fld; repeat split; auto|repeat split; reflexivity].
 Qed.
 
@@ -185,12 +190,15 @@ Lemma inv_advance : forall g s s' f',
   s_syn_unacked_in_fin_wait s' = s_syn_unacked_in_fin_wait s ->
   (timer_is_idle (s_timer s') = true -> f' = 0 \/ rb_len (s_tx_buffer s) = 0) ->
   (timer_is_zero_window_probe (s_timer s') = true -> s_remote_win_len s = 0) ->
+  (rt_max_seq_sent (s_rtte s') = rt_max_seq_sent (s_rtte s) \/
+   exists y, rt_max_seq_sent (s_rtte s') = Some (sq (g_iss g + y)) /\ 1 <= y <= g_una g + f') ->
+  s_remote_mss s' = s_remote_mss s -> s_state s <> Listen ->
   inv (g_sent g f') s'.
 Proof.
-  intros g s s' f' ((Hwf & Hcap & Ha & Hlen & Hc & Hl & Hr & Hf & Hhw & Hpo & Hw & Hs) & Htm)
-         Hf' E1 E2 E3 E4 E5 E6 E7 Hi Hz.
-  split.
-  - unfold tx_inv. rewrite E1, E2, E3, E4, E5, E6, E7. unfold tx_inv_f, g_sent.
+  intros g s s' f' ((Hwf & Hcap & Ha & Hlen & Hc & Hl & Hr & Hf & Hhw & Hpo & Hw & Hs) & Htm & Hk)
+         Hf' E1 E2 E3 E4 E5 E6 E7 Hi Hz Hmx Hms Hnl.
+  assert (Htx' : tx_inv (g_sent g f') s').
+  { unfold tx_inv. rewrite E1, E2, E3, E4, E5, E6, E7. unfold tx_inv_f, g_sent.
     cbn [g_iss g_stream g_acked g_flight g_hw].
     replace (g_una (mkGhost (g_iss g) (g_stream g) (g_acked g) (g_phase g) f' (g_fin g)
                             (Z.max (g_hw g) (g_una g + f')))) with (g_una g) by reflexivity.
@@ -201,8 +209,19 @@ Proof.
     unfold phase_ok in *. cbn [g_phase g_acked g_fin g_flight].
     destruct (g_phase g) eqn:P; try tauto.
     destruct Hpo as (A & B & C & D). unfold g_budget in Hf'. rewrite P in Hf'.
-    repeat split; auto. lia.
+    repeat split; auto. lia. }
+  split; [exact Htx'|]. split.
   - unfold tm_inv, tm_inv_f. rewrite E2, E5. cbn [g_sent g_flight]. split; assumption.
+  - pose proof (una_flight_bound _ _ _ _ _ _ _ _ Htx') as Hb.
+    destruct Hk as (K1 & K2 & K3 & K4). unfold kinv.
+    replace (g_una (g_sent g f')) with (g_una g) in Hb by reflexivity.
+    cbn [g_sent g_hw g_stream g_fin g_iss g_flight] in *. rewrite Hms, E1.
+    split; [lia|]. split; [|split; [exact K3|]].
+    + destruct Hmx as [Hmx|(y & Hmx & Hy)]; rewrite Hmx.
+      * destruct (rt_max_seq_sent (s_rtte s)) as [m|]; [|exact I].
+        destruct K2 as (x & Ex & Hx). exists x. split; [exact Ex|lia].
+      * exists y. split; [reflexivity|lia].
+    + intros X. contradiction.
 Qed.
 
 Lemma finish_fields : forall cx s2 r s' tg,
@@ -219,7 +238,9 @@ Lemma finish_fields : forall cx s2 r s' tg,
   s_rx_buffer s' = s_rx_buffer s2 /\ s_tsval_generator s' = s_tsval_generator s2 /\
   s_remote_seq_no s' = s_remote_seq_no s2 /\
   (exists rto, s_timer s' = if (sl >? 0) && negb (timer_is_retransmit tk)
-                            then timer_set_for_retransmit tk (cx_now cx) rto else tk).
+                            then timer_set_for_retransmit tk (cx_now cx) rto else tk) /\
+  s_rtte s' = (if sl >? 0 then rtte_on_send (s_rtte s2) (cx_now cx) (seq_add (r_seq_number r) sl)
+               else s_rtte s2).
 Proof.
   intros cx s2 r s' tg H. cbv zeta. destruct_sock s2. unfold tcp_dispatch_finish in H.
   fldv_in H. fldv.
@@ -230,7 +251,7 @@ Proof.
   all: injection H as E1 E2.
   all: subst s' tg.
   all: repeat match goal with |- _ /\ _ => split; [reflexivity|] end.
-  all: first [exists 0; reflexivity | eexists; reflexivity].
+  all: (split; [first [exists 0; reflexivity | eexists; reflexivity]|reflexivity]).
 Qed.
 
 Lemma finish_other_fields : forall cx s2 r zwp ka s' tg,
@@ -244,7 +265,8 @@ Lemma finish_other_fields : forall cx s2 r zwp ka s' tg,
   s_syn_unacked_in_fin_wait s' = s_syn_unacked_in_fin_wait s2 /\
   s_rx_buffer s' = s_rx_buffer s2 /\ s_tsval_generator s' = s_tsval_generator s2 /\
   s_remote_seq_no s' = s_remote_seq_no s2 /\
-  s_timer s' = (if zwp then timer_rewind_zero_window_probe tk (cx_now cx) else tk).
+  s_timer s' = (if zwp then timer_rewind_zero_window_probe tk (cx_now cx) else tk) /\
+  s_rtte s' = s_rtte s2.
 Proof.
   intros cx s2 r zwp ka s' tg Hz H. cbv zeta. destruct_sock s2. unfold tcp_dispatch_finish in H.
   fldv_in H. fldv.
@@ -252,17 +274,28 @@ Proof.
   repeat split; reflexivity.
 Qed.
 
+Lemma rtte_on_send_msx : forall r now q,
+  rt_max_seq_sent (rtte_on_send r now q) = rt_max_seq_sent r \/
+  rt_max_seq_sent (rtte_on_send r now q) = Some q.
+Proof.
+  intros. unfold rtte_on_send.
+  destruct (match rt_max_seq_sent r with Some m => seq_gt q m | None => true end); cbn; auto.
+Qed.
+
 Lemma finish_inv : forall cx g s s2 r zwp ka s' tg,
   inv g s -> (s2 = s \/ s2 = upd_pending_fast_retransmit s false) ->
-  seg_ok cx g s r zwp ka ->
+  seg_ok cx g s r zwp ka -> s_state s <> Listen ->
   tcp_dispatch_finish cx s2 r zwp ka = (s', tg) ->
   exists g', inv g' s' /\ same_epoch g g' /\
     (g' = g \/ exists f, g' = g_sent g f /\ g_flight g <= f) /\
     frame s s'.
 Proof.
-  intros cx g s s2 r zwp ka s' tg Hinv Hs2 Hok H.
+  intros cx g s s2 r zwp ka s' tg Hinv Hs2 Hok Hnl H.
   assert (Hinv2 : inv g s2) by (destruct Hs2 as [->| ->]; [exact Hinv|eapply inv_txv; [|exact Hinv]; reflexivity]).
   assert (Hfr : frame s s2) by (destruct Hs2 as [->| ->]; [apply frame_refl|unfold frame; fld; repeat split; auto]).
+  assert (Hrt2 : s_rtte s2 = s_rtte s /\ s_remote_mss s2 = s_remote_mss s /\ s_state s2 = s_state s)
+    by (destruct Hs2 as [->| ->]; repeat split; reflexivity).
+  destruct Hrt2 as (Hrt2 & Hms2 & Hst2).
   set (tk := timer_rewind_keep_alive (s_timer s2) (cx_now cx) (s_keep_alive s2)).
   destruct (rewind_ka_class (s_timer s2) (cx_now cx) (s_keep_alive s2)) as (C1 & C2 & C3).
   fold tk in C1, C2, C3.
@@ -270,18 +303,19 @@ Proof.
     by (destruct zwp, ka; auto).
   destruct Hzk as [Hz|[Hz|(-> & ->)]].
   1, 2: (pose proof (finish_other_fields cx s2 r zwp ka s' tg ltac:(auto) H) as X; cbv zeta in X;
-    destruct X as (B1 & B2 & B3 & B4 & B5 & B6 & B7 & B8 & B9 & B10 & B11 & B12 & B13);
+    destruct X as (B1 & B2 & B3 & B4 & B5 & B6 & B7 & B8 & B9 & B10 & B11 & B12 & B13 & B14);
     exists g; split; [|split; [apply same_epoch_refl|split; [auto|]]];
-    [ destruct Hinv2 as (Htx2 & Htm2); split;
+    [ destruct Hinv2 as (Htx2 & Htm2 & Hk2); split; [|split];
       [ unfold tx_inv; rewrite B1, B2, B3, B4, B5, B6, B9; exact Htx2
       | unfold tm_inv, tm_inv_f in *; rewrite B2, B5, B13; fold tk;
         destruct (rewind_zwp_class tk (cx_now cx)) as (D1 & D2);
-        destruct zwp; rewrite ?D1, ?D2, C1, C2; exact Htm2 ]
+        destruct zwp; rewrite ?D1, ?D2, C1, C2; exact Htm2
+      | eapply kinv_fields; [exact Hk2|rewrite B14; reflexivity|exact B7|congruence] ]
     | eapply frame_trans; [exact Hfr|]; unfold frame; rewrite B1, B2, B3, B5, B6, B7, B8, B9, B10, B11, B12;
       repeat split; auto ]).
   (* an ordinary segment *)
   pose proof (finish_fields cx s2 r s' tg H) as X. cbv zeta in X. fold tk in X.
-  destruct X as (B1 & B2 & B3 & B4 & B5 & B6 & B7 & B8 & B9 & B10 & B11 & B12 & (rto & B13)).
+  destruct X as (B1 & B2 & B3 & B4 & B5 & B6 & B7 & B8 & B9 & B10 & B11 & B12 & (rto & B13) & B14).
   assert (Hfr' : frame s s').
   { eapply frame_trans; [exact Hfr|]. unfold frame. rewrite B1, B2, B3, B5, B6, B7, B8, B9, B10, B11, B12.
     repeat split; auto. }
@@ -289,12 +323,11 @@ Proof.
   - (* it occupies sequence space: SND.NXT advances, the retransmission timer runs *)
     destruct Hfr as (F1 & F2 & F3 & F4 & F5 & F6 & F7 & F8 & F9 & F10 & F11).
     destruct (seg_space cx g s r Hinv Hok Hsl) as (x & Ex & Hx & Hxb).
-    pose proof Hinv as ((Hwf & Hcap & Ha & Hlen & Hc & Hl & Hr & Hf & Hhw & Hpo & Hw & Hs) & Htm).
+    pose proof Hinv as ((Hwf & Hcap & Ha & Hlen & Hc & Hl & Hr & Hf & Hhw & Hpo & Hw & Hs) & Htm & Hk).
     pose proof Hwf as (Hl0 & _).
     pose proof (budget_bound g (rb_len (s_tx_buffer s)) ltac:(lia)) as Hb.
     assert (Hrls2 : s_remote_last_seq s2 = s_remote_last_seq s)
       by (destruct Hs2 as [->| ->]; reflexivity).
-    assert (Hst2 : s_state s2 = s_state s) by (destruct Hs2 as [->| ->]; reflexivity).
     set (f' := Z.max (g_flight g) (x + repr_segment_len r - g_una g)).
     assert (Emax : seq_max (s_remote_last_seq s2) (seq_add (r_seq_number r) (repr_segment_len r)) =
                    sq (g_iss g + g_una g + f')).
@@ -303,16 +336,23 @@ Proof.
       replace (g_iss g + x + repr_segment_len r) with (g_iss g + (x + repr_segment_len r)) by lia.
       rewrite seq_max_sq by lia. f_equal. unfold f'. lia. }
     rewrite Emax in B4.
+    assert (Hua : 0 <= g_una g) by (unfold g_una; destruct (g_phase g); lia).
     exists (g_sent g f'). split; [|split; [apply same_epoch_sent|split; [right; exists f'; split; [reflexivity|unfold f'; lia]|exact Hfr']]].
     eapply (inv_advance g s); [exact Hinv|unfold f'; lia|congruence|congruence|congruence|exact B4
-                              |congruence|congruence|congruence| |].
+                              |congruence|congruence|congruence| | | |congruence|exact Hnl].
     + intros X. exfalso. rewrite B13 in X. destruct tk; cbn in X; discriminate.
     + intros X. exfalso. rewrite B13 in X. destruct tk; cbn in X; discriminate.
+    + rewrite B14, Hrt2.
+      destruct (rtte_on_send_msx (s_rtte s) (cx_now cx) (seq_add (r_seq_number r) (repr_segment_len r)))
+        as [E|E]; [left; exact E|right].
+      exists (x + repr_segment_len r). split; [rewrite E, Ex, seq_add_sq; f_equal; f_equal; lia|].
+      unfold f'. lia.
   - (* nothing but an acknowledgement / window update / RST *)
     exists g. split; [|split; [apply same_epoch_refl|split; [auto|exact Hfr']]].
-    destruct Hinv2 as (Htx2 & Htm2). split.
+    destruct Hinv2 as (Htx2 & Htm2 & Hk2). split; [|split].
     + unfold tx_inv. rewrite B1, B2, B3, B4, B5, B6, B9. exact Htx2.
     + unfold tm_inv, tm_inv_f in *. rewrite B2, B5, B13, C1, C2. exact Htm2.
+    + eapply kinv_fields; [exact Hk2|rewrite B14; reflexivity|exact B7|congruence].
 Qed.
 
 
